@@ -32,6 +32,24 @@ impl<'a> Env<'a> {
             Expr::IncDec(_, _, lv) | Expr::Assign(_, lv, _) => self.expr_ty(&Expr::Lv(lv.clone())),
             Expr::Un(UnOp::Neg, a) | Expr::Un(UnOp::BNot, a) => self.expr_ty(a),
             Expr::Comma(_, b) => self.expr_ty(b),
+            Expr::Bin(op, a, b) => {
+                if op.is_cmp() || matches!(op, BinOp::LAnd | BinOp::LOr) {
+                    return Some(Ty::U8);
+                }
+                // a compound arithmetic operand is as wide as its widest typed operand
+                let (ta, tb) = (self.expr_ty(a), self.expr_ty(b));
+                let tb = if matches!(op, BinOp::Shl | BinOp::Shr) { None } else { tb };
+                match (ta, tb) {
+                    (Some(x), Some(y)) => Some(if x.bits() >= y.bits() { x } else { y }),
+                    (Some(x), None) | (None, Some(x)) => Some(x),
+                    (None, None) => None,
+                }
+            }
+            Expr::Ternary(_, a, b) => match (self.expr_ty(a), self.expr_ty(b)) {
+                (Some(x), Some(y)) => Some(if x.bits() >= y.bits() { x } else { y }),
+                (Some(x), None) | (None, Some(x)) => Some(x),
+                (None, None) => None,
+            },
             _ => None,
         }
     }
@@ -203,6 +221,10 @@ fn borrows_y(env: &Env, e: &Expr) -> bool {
         let idx = match x {
             Expr::Lv(LValue::Index(n, i)) | Expr::Assign(_, LValue::Index(n, i), _) | Expr::IncDec(_, _, LValue::Index(n, i)) => {
                 if env.is_ptr_var(n) {
+                    // p[Y] uses Y as it is; any other index of a pointer variable is loaded into Y
+                    if !matches!(&**i, Expr::Lv(LValue::Var(v)) if v == "Y") {
+                        f = true;
+                    }
                     None
                 } else {
                     Some(i)
